@@ -285,8 +285,9 @@ class Env:
             return False
         return True
 
-    def eq(self, got, exp, label):
-        """element-wise equality of two scalars / arrays (NaN == NaN, inf == inf)"""
+    def eq(self, got, exp, label, exact=False):
+        """element-wise equality of two scalars / arrays (NaN == NaN, inf == inf); exact=True: bit-for-bit in
+        'conc' mode (no tolerance)"""
         ga, ea = _cells(got), _cells(exp)
         if ga.shape != ea.shape:
             self._fail("mismatch", label, f"shape {ga.shape} vs expected {ea.shape}")
@@ -297,7 +298,7 @@ class Env:
             return self._eq_sym(gl, el, label, ga.shape)
         self.record.append((label, gl))
         for i, (a, b) in enumerate(zip(gl, el)):
-            if not _close(a, b):
+            if (not _close(a, b)) if not exact else (not _same(a, b)):
                 self._fail("mismatch", label, f"cell {np.unravel_index(i, ga.shape) if ga.shape else ()}: got {a!r}, expected {b!r}")
                 return False
         return True
@@ -395,6 +396,16 @@ def _cells(x):
     a = np.empty((), dtype=object)
     a[()] = x
     return a
+
+
+def _same(a, b):
+    try:
+        a, b = float(a), float(b)
+    except (TypeError, ValueError):
+        return a == b
+    if math.isnan(a) or math.isnan(b):
+        return math.isnan(a) and math.isnan(b)
+    return a == b and math.copysign(1.0, a) == math.copysign(1.0, b)
 
 
 def _close(a, b, rtol=1e-7, atol=1e-9):
